@@ -197,7 +197,7 @@ namespace internal
 		{
 			size_t initCount = array.GetCount();
 			MOMO_CHECK(index <= initCount);
-			MOMO_ASSERT(array.GetCapacity() >= initCount + count);
+			MOMO_ASSERT(count <= array.GetCapacity() - initCount);
 			if (count == 0)
 				return;
 			MemManager& memManager = array.GetMemManager();
@@ -229,7 +229,7 @@ namespace internal
 		{
 			size_t initCount = array.GetCount();
 			MOMO_CHECK(index <= initCount);
-			MOMO_ASSERT(array.GetCapacity() >= initCount + count);
+			MOMO_ASSERT(count <= array.GetCapacity() - initCount);
 			if (count == 0)
 				return;
 			MemManager& memManager = array.GetMemManager();
